@@ -239,6 +239,10 @@ func (fr *Frame) ctx(st *State, li *loopInfo) *EvalCtx {
 		if b, ok := fr.lets[name]; ok {
 			return b, true
 		}
+		if name == "$recv" && len(fr.fn.Params) > 0 {
+			p := fr.fn.Params[0]
+			return Binding{term: fr.val(p), typ: p.Type()}, true
+		}
 		if strings.HasPrefix(name, "$k") && len(name) > 2 {
 			// $k<N>: completed iterations of loop N (must be in scope)
 			for _, l2 := range fr.loops {
@@ -553,6 +557,9 @@ func (ctx *EvalCtx) fieldAddr(base *Term, bt types.Type, name string) (*Term, ty
 	}
 	cur, ct := base, bt
 	for k, idx := range path {
+		if isAtomicStruct(ct) {
+			ctx.fail("address of a field of atomic struct %s is not available", ct)
+		}
 		st, ok := structOf(ct)
 		if !ok {
 			ctx.fail("field path through non-struct %s", ct)
@@ -605,9 +612,39 @@ func (ctx *EvalCtx) sel(e *CExpr) TV {
 		ctx.fail("selector on ghost value %s", e)
 	}
 	if pt, ok := x.typ.Underlying().(*types.Pointer); ok {
+		if isAtomicStruct(pt.Elem()) {
+			// read the whole cell, then select
+			return ctx.selValue(TV{t: vc.load(ctx.st, pt.Elem(), x.t), typ: pt.Elem()}, e.Name)
+		}
+		// a path that crosses an atomic struct on its way: evaluate the prefix as a value
+		if obj, path, _ := types.LookupFieldOrMethod(pt.Elem(), true, ctx.pkgFor(pt.Elem()), e.Name); obj != nil && len(path) > 1 {
+			ct := pt.Elem()
+			crosses := false
+			for _, idx := range path[:len(path)-1] {
+				if st, ok := rawStruct(ct); ok {
+					ct = st.Field(idx).Type()
+					if p2, ok := ct.Underlying().(*types.Pointer); ok {
+						ct = p2.Elem()
+					}
+					if isAtomicStruct(ct) {
+						crosses = true
+					}
+				}
+			}
+			if crosses {
+				return ctx.selValue(TV{t: vc.load(ctx.st, pt.Elem(), x.t), typ: pt.Elem()}, e.Name)
+			}
+		}
 		a, ft := ctx.fieldAddr(x.t, pt.Elem(), e.Name)
 		return TV{t: vc.load(ctx.st, ft, a), typ: ft}
 	}
+	return ctx.selValue(x, e.Name)
+}
+
+// selValue selects a (possibly promoted) field from a struct value.
+func (ctx *EvalCtx) selValue(x TV, name string) TV {
+	vc := ctx.vc
+	e := &CExpr{Kind: "sel", Name: name}
 	// struct value: follow path with selectors (embedded pointers are dereferenced)
 	obj, path, _ := types.LookupFieldOrMethod(x.typ, false, ctx.pkgFor(x.typ), e.Name)
 	if _, ok := obj.(*types.Var); !ok {
@@ -615,7 +652,7 @@ func (ctx *EvalCtx) sel(e *CExpr) TV {
 	}
 	cur, ct := x.t, x.typ
 	for k, idx := range path {
-		st, ok := structOf(ct)
+		st, ok := rawStruct(ct)
 		if !ok {
 			ctx.fail("field path through non-struct %s", ct)
 		}
@@ -629,6 +666,9 @@ func (ctx *EvalCtx) sel(e *CExpr) TV {
 			rest := path[k+1:]
 			a, at := fv, pt.Elem()
 			for j, idx2 := range rest {
+				if isAtomicStruct(at) {
+					ctx.fail("promoted field through embedded pointer to atomic struct %s not supported", at)
+				}
 				st2, _ := structOf(at)
 				fa := vc.sub(at, idx2, a)
 				ft2 := st2.Field(idx2).Type()
@@ -924,6 +964,15 @@ func (ctx *EvalCtx) call(e *CExpr) TV {
 		// iface(p): interface value holding pointer p with its static type
 		x := arg(0)
 		return TV{t: app("mk-iface", intLit(int64(vc.eng.typeTag(x.typ))), x.t), typ: types.NewInterfaceType(nil, nil)}
+	case "asIface":
+		// asIface(p, T): the interface value of (interface) type T holding the pointer p
+		x := arg(0)
+		g := vc.parseType(e.Args[1].String(), ctx.pkg)
+		if x.typ == nil || g.Kind != "go" {
+			ctx.fail("asIface(pointer, interface type)")
+		}
+		tag := intLit(int64(vc.eng.typeTag(x.typ)))
+		return TV{t: app("mk-iface", tag, x.t), typ: g.Go}
 	case "arr":
 		return intTV(app("s.arr", arg(0).t))
 	case "spawnarg":
